@@ -110,7 +110,7 @@ func (rn *runner) floatTie(r *lib.RNG) {
 	}
 	answers, err := rn.drv.AskAll(lines)
 	if err != nil {
-		res.Note("float tie: %v", err)
+		res.Fatalf("float tie: %v", err)
 		res.Mismatch(lib.Mismatch{Sig: "harness-run-aborted", Model: err.Error()})
 		return
 	}
